@@ -145,3 +145,32 @@ def fingerprint(obj):
     h = hashlib.sha1()
     _fp_value(obj, h)
     return h.hexdigest()
+
+
+class BudgetExceeded(Exception):
+    """A logical-step budget was exhausted (the library is looping): an observation, decided on
+    step counts, never on wall-clock time."""
+
+
+class CallBudget:
+    """Bound the number of calls of owner.name inside a `with` block.
+
+        with probe.CallBudget(KeplerNum, "_make_step", 20000): orb.propagate(date)
+    """
+
+    def __init__(self, owner, name, budget):
+        self.owner, self.name, self.budget = owner, name, budget
+        self.calls = 0
+
+    def __enter__(self):
+        def pre(a, k):
+            self.calls += 1
+            if self.calls > self.budget:
+                raise BudgetExceeded(f"{self.owner.__name__}.{self.name} called more than {self.budget} times")
+
+        self._p = attach(self.owner, self.name, pre=pre)
+        return self
+
+    def __exit__(self, *exc):
+        self._p.remove()
+        return False
